@@ -16,12 +16,13 @@ Inductive case := Case (n : nat) (t0 : Z) (steps : list stp).
 Definition oz (o : option Z) : Z := match o with Some x => x | None => -1 end.
 Definition on_ (o : option nat) : Z := match o with Some x => Z.of_nat x | None => -1 end.
 
+Definition ph_code (p : phase) : Z := match p with PReg => 0 | PWarm _ _ => 1 | PLive => 2 | PDeg => 3 end.
+Definition ph_probes (p : phase) : Z := match p with PWarm n _ => n | _ => 0 end.
+Definition ph_entered (p : phase) : Z := match p with PWarm _ e => e | _ => 0 end.
+
 Definition obs_link (l : link) : lobs :=
-  let r := l_rc l in
-  let '(pc, pp, pe) := match l_ph l with
-                       | PReg => (0, 0, 0) | PWarm n e => (1, n, e) | PLive => (2, 0, 0) | PDeg => (3, 0, 0)
-                       end in
-  LO (l_conn l) (oz (l_lr l)) (l_to l) (r_last r) (r_fail r) (r_est r) (r_grace r) pc pp pe
+  LO (l_conn l) (oz (l_lr l)) (l_to l) (r_last (l_rc l)) (r_fail (l_rc l)) (r_est (l_rc l)) (r_grace (l_rc l))
+     (ph_code (l_ph l)) (ph_probes (l_ph l)) (ph_entered (l_ph l))
      (l_win l) (l_inf l) (l_gen l)
      (p_gated (l_pen l)) (p_weak (l_pen l)) (p_backoff (l_pen l)) (p_lossdeg (l_pen l)).
 
